@@ -21,7 +21,10 @@ def run(rep, tier):
     from vf import lemmas
     lemmas.lemma_obligations(rep, ["unitary_conj_trace", "conj_isHermitian", "complete_set_preserves_trace"])
     seed = common.seed()
-    k = 3 if tier == "quick" else 1
+    # quick: every third cell, then capped by run_b; thorough: every fourth cell of each family, uncapped (each family is run in full by the
+    # thorough check of the property that owns it)
+    k = 3 if tier == "quick" else 4
+    rep.bounds["family_stride"] = k
     plain = (opcells.single_target_cells(tier, seed)[::k] + opcells.multi_target_cells(tier, seed)[::k] + morecells.structural_cells(tier, seed)[::k + 1]
              + morecells.kraus_cells(tier, seed)[::k] + morecells.resize_cells(tier, seed)[::k + 1] + morecells.trace_out_cells(tier, seed)[::k + 2]
              + morecells.invalid_cells(tier, seed)[::k + 1] + opcells.autodim_cells(tier, seed)[::k])
